@@ -249,6 +249,31 @@ pub fn run(ctx: &Ctx) -> i32 {
             check_case(ctx, st, &tcs, s);
         });
     }
+    // many test cases mixing word and non-word characters with class conversion and no end anchor: the
+    // candidate expressions have tens to hundreds of class atoms (size limits of the self-check)
+    {
+        let al: Vec<String> = ["a", "b", "+", "-", "=", "1"].iter().map(|s| s.to_string()).collect();
+        let n = if ctx.thorough { 3000 } else { 200 };
+        par_for(&ctx.run, n, |i, st| {
+            let mut rng = Rng::new(seed, 0x83_0000 + i as u64);
+            let k = 12 + rng.below(30);
+            let tcs: Vec<String> = (0..k).map(|_| (0..1 + rng.below(10)).map(|_| rng.pick(&al).clone()).collect()).collect();
+            let cls = [WORD, WORD | DIGIT, NWORD, DIGIT | NDIGIT, WORD | NSPACE][i % 5];
+            st.count("many_test_cases_class_noend");
+            check_case(ctx, st, &tcs, Settings::new(cls | MODES[2 + i % 2]));
+        });
+    }
+    // case-insensitive search: fold-equal but not identical letters (final sigma, long s, Kelvin, micro)
+    {
+        let al = gen::alphabet("sigma");
+        let n = if ctx.thorough { 200_000 } else { 12_000 };
+        par_for(&ctx.run, n, |i, st| {
+            let mut rng = Rng::new(seed, 0x82_0000 + i as u64);
+            let tcs = gen::family(&mut rng, &al);
+            st.count("random_sigma_case_insensitive");
+            check_case(ctx, st, &tcs, Settings::new(CI | MODES[1 + i % 3] | if i % 7 == 0 { REP } else { 0 }));
+        });
+    }
     // random prefix-related families
     let n = if ctx.thorough { 150_000 } else { 10_000 };
     let names = ["ab", "abc", "graph", "meta", "case", "classes", "mixed", "ws", "astral", "clusters", "tokens"];
